@@ -237,6 +237,54 @@ def check_server(ctx, model, spec, supported):
             ctx.spec_violation(klass, r, f"answered {a}, session {s}")
 
 
+def check_histories(ctx, model, spec, supported):
+    """Several initialize requests on ONE connection: every later call is handled with the session id the previous one
+    returned (what a server loop does).  Each step is judged like a single request: the version answered is supported and
+    is what the session returned by THAT call records."""
+    import itertools
+    from chuk_mcp.protocol.messages.json_rpc_message import parse_message
+    pool = [{"req": "str", "value": v} for v in supported] + [{"req": "str", "value": "1999-01-01"},
+                                                              {"req": "absent", "how": "params-empty"},
+                                                              {"req": "nonstr", "value": 7}]
+    hists = [list(h) for n in (2, 3) for h in itertools.product(pool, repeat=n)]
+
+    async def main():
+        out = []
+        for hi, hist in enumerate(hists):
+            h = make_handlers()[hi % 2]
+            sid, steps = None, []
+            for i, r in enumerate(hist):
+                try:
+                    resp, new_sid = await h.handle_message(parse_message(request_dict(r, 2 * i + 1)), sid)
+                    steps.append(observe_response(h, resp, new_sid))
+                    sid = new_sid if new_sid is not None else sid
+                except Exception as e:                          # noqa: BLE001
+                    steps.append((["raised", type(e).__name__], ["none"]))
+            out.append(steps)
+        return out
+    obs = asyncio.run(main())
+    flat = [(hist, i, r, a, s) for hist, steps in zip(hists, obs) for i, (r, (a, s)) in enumerate(zip(hist, steps))]
+    sres = spec.run([call(40, sx(supported), enc_requested(r), enc_value(a) if a[0] != "raised" else "()", enc_value(s))
+                     for _h, _i, r, a, s in flat])
+    mres = model.run([call(30, enc_requested(r)) for _h, _i, r, _a, _s in flat]) if model else None
+    for k, (hist, i, r, a, s) in enumerate(flat):
+        case = {"history": hist, "step": i}
+        if i == len(hist) - 1:
+            ctx.case(case, nontrivial=True)
+            ctx.count(f"history-length:{len(hist)}")
+        if mres is not None:
+            ma, ms = mres[k]
+            dec = lambda x: ["str", lib.as_str(x[1])] if x[0] == 1 else ["nonstr"]  # noqa: E731
+            can = lambda x: x if x[0] == "str" else [x[0]]                          # noqa: E731
+            if dec(ma) != can(a) or dec(ms) != can(s):
+                ctx.mismatch(case, {"answered": a, "session": s}, {"answered": dec(ma), "session": dec(ms)},
+                             "_handle_initialize at a later step of a connection: model != implementation")
+        ctx.spec_total += 1
+        ok, clause = sres[k]
+        if not ok:
+            ctx.spec_violation("reinitialize:" + SERVER_CLAUSES.get(clause, f"clause-{clause}"), case, f"answered {a}, session {s}")
+
+
 # --------------------------------------------------------------------------- #
 # End to end: real client piped to the real handler
 # --------------------------------------------------------------------------- #
@@ -327,6 +375,7 @@ def explore(ctx, model, spec):
     from chuk_mcp.protocol.types.versioning import SUPPORTED_VERSIONS
     supported = list(SUPPORTED_VERSIONS)
     check_server(ctx, model, spec, supported)
+    check_histories(ctx, model, spec, supported)
     check_handshake(ctx, model, spec, supported)
     ctx.extra["server_supported"] = supported
     ctx.extra["full_grid_1900_2099"] = bool(ctx.thorough or ctx.escalated)
@@ -379,6 +428,24 @@ def replay(ctx, data):
         ok = spec.run([call(41, sx(eff), sx(supported), s_out, enc_value(lg["session"]))])[0]
         print("case:", case, "\nobserved:", lg)
         bad = (not ok) or lg["initialized"] != (1 if o[0] == "ok" else 0)
+        if bad:
+            print("REPRODUCED", data.get("class"))
+        return 1 if bad else 0
+    if "history" in case:
+        from chuk_mcp.protocol.messages.json_rpc_message import parse_message
+
+        async def main():
+            h = make_handlers()[0]
+            sid, bad = None, False
+            for i, r in enumerate(case["history"]):
+                resp, new_sid = await h.handle_message(parse_message(request_dict(r, 2 * i + 1)), sid)
+                a, s_ = observe_response(h, resp, new_sid)
+                sid = new_sid if new_sid is not None else sid
+                ok, clause = spec.run([call(40, sx(supported), enc_requested(r), enc_value(a), enc_value(s_))])[0]
+                print("step", i, r, "answered", a, "session", s_, "ok" if ok else "FAILS " + SERVER_CLAUSES.get(clause, "?"))
+                bad = bad or not ok
+            return bad
+        bad = asyncio.run(main())
         if bad:
             print("REPRODUCED", data.get("class"))
         return 1 if bad else 0
